@@ -431,6 +431,7 @@ func (sv stringValue) Each(consumer px.Consumer) {
 }
 
 func (sv stringValue) EachSlice(n int, consumer px.SliceConsumer) {
+	assertSliceSize(n)
 	s := sv.String()
 	top := len(s)
 	for i := 0; i < top; i += n {
